@@ -182,7 +182,12 @@ def vector(req):
                 warm[0] = 1
                 refuse[0] = 1 if hist == "refused" else 0
                 got = []
-                w = EphemeralOnionService.create(reactor, config, [8080], private_key=pk, version=req["version"])
+                tor = txtorcon.Tor(reactor, proto, _tor_config=config) if req.get("via_tor") else None
+                if tor is not None:
+                    # both creations are requested through the same Tor object
+                    w = tor.create_onion_service([8080], private_key=pk, version=req["version"])
+                else:
+                    w = EphemeralOnionService.create(reactor, config, [8080], private_key=pk, version=req["version"])
                 w.addBoth(got.append)
                 reactor.turn()
                 sim.pump()
@@ -194,8 +199,12 @@ def vector(req):
                 warm[0] = len(adds)
                 wdels[0] = len(dels)
                 reactor.given[:] = []
-            d = EphemeralOnionService.create(reactor, config, ports, detach=req["detach"], private_key=pk,
-                                             version=req["version"], single_hop=req["single"])
+            if hist in ("removed", "refused") and req.get("via_tor"):
+                d = tor.create_onion_service(ports, private_key=pk, version=req["version"], single_hop=req["single"],
+                                             detach=req["detach"])
+            else:
+                d = EphemeralOnionService.create(reactor, config, ports, detach=req["detach"], private_key=pk,
+                                                 version=req["version"], single_hop=req["single"])
         d.addBoth(fired.append)
         reactor.turn()
         sim.pump()
